@@ -620,7 +620,7 @@ def k_shift(T, tier):
 
 def k_rot(T, tier):
     w = T.bits
-    return sorted({0, 1, w // 2, w - 1, w, w + 3}) if tier == 'quick' else list(range(2 * w + 1))
+    return sorted({0, 1, w // 2, w - 1, w, w + 3, w + w // 2, 2 * w - 1, 2 * w}) if tier == 'quick' else list(range(2 * w + 1))
 
 
 def k_lane(T, tier):
